@@ -5,6 +5,7 @@ import (
 	"encoding/json"
 	"errors"
 	"fmt"
+	"os"
 	"runtime"
 	"runtime/debug"
 	"sort"
@@ -14,6 +15,7 @@ import (
 	"time"
 
 	"github.com/ipfs/go-cid"
+	"github.com/libp2p/go-libp2p/core/peer"
 	"github.com/sourcenetwork/corekv"
 
 	"github.com/sourcenetwork/defradb/client"
@@ -27,7 +29,7 @@ import (
 const (
 	stOK = iota
 	stConflict
-	stError   // any other error: the call may or may not have had an effect
+	stError    // any other error: the call may or may not have had an effect
 	stNoTarget // nothing to act on (own document never created): not executed
 )
 
@@ -44,6 +46,8 @@ type callRec struct {
 	Status     int
 	Err        string
 	Note       string
+	// Redelete: a collection-API delete of a document the model already holds deleted.
+	Redelete bool
 }
 
 func (c *callRec) String() string {
@@ -127,6 +131,19 @@ func (m *mergeTracker) publish(key string, tick int64) {
 	m.mu.Unlock()
 }
 
+// failed records a logged merge failure; it returns false when the harness published no such merge
+// (the record belongs to another node of the process).
+func (m *mergeTracker) failed(key string, failure string, tick int64) bool {
+	m.mu.Lock()
+	_, ok := m.published[key]
+	m.mu.Unlock()
+	if !ok {
+		return false
+	}
+	m.end(key, failure, tick)
+	return true
+}
+
 func (m *mergeTracker) end(key string, failure string, tick int64) {
 	m.mu.Lock()
 	m.ended[key]++
@@ -200,6 +217,35 @@ type runner struct {
 	own    [][]*ownDoc
 	merges *mergeTracker
 	labels map[string]bool
+
+	sinkInfo peer.AddrInfo
+	repDone  atomic.Int64 // ReplicatorCompleted events seen
+	sinkDown atomic.Bool
+}
+
+func timing(format string, args ...any) {
+	if os.Getenv("VERIF_C16_SHOW_STDERR") != "" {
+		fmt.Fprintf(os.Stdout, "timing: "+format+"\n", args...)
+	}
+}
+
+// waitReplicatorPushes waits for the background push every acknowledged SetReplicator starts
+// (it ends with a ReplicatorCompleted event), so that closing the node is not part of the schedule.
+// Waiting is bounded and never a verdict.
+func (r *runner) waitReplicatorPushes() {
+	want := int64(0)
+	for _, cl := range r.calls {
+		if cl.Op.K == kSetRep && cl.Status == stOK {
+			want++
+		}
+	}
+	deadline := time.Now().Add(20 * time.Second)
+	for r.repDone.Load() < want && time.Now().Before(deadline) {
+		time.Sleep(5 * time.Millisecond)
+	}
+	if r.repDone.Load() < want {
+		r.label("replicator-push-still-running-at-close")
+	}
 }
 
 func (r *runner) fail(f *hx.Failure) {
@@ -317,6 +363,9 @@ func (r *runner) setup() {
 			hx.Harnessf("cannot boot p2p sink: %v", err)
 		}
 	}
+	if r.sink != nil {
+		r.sinkInfo = r.sink.N.Peer.PeerInfo()
+	}
 	r.tgt, err = hx.NewMemNode(opts...)
 	if err != nil {
 		hx.Harnessf("cannot boot node: %v", err)
@@ -429,6 +478,9 @@ func (r *runner) close() {
 		r.tgt.Close()
 	}
 	if r.sink != nil {
+		if r.sinkDown.Load() {
+			r.sink.N.Peer = nil // already closed by a sink-down call
+		}
 		r.sink.Close()
 	}
 	if r.src != nil {
@@ -479,7 +531,13 @@ func (r *runner) call(g, i int, op Op) {
 			rc.End = r.tick.Add(1)
 			rc.Status = stError
 			rc.Err = fmt.Sprintf("panic: %v", p)
-			r.fail(hx.Failf("C16/panic/"+hx.PanicSite(st), "call %s panicked: %v\n%s", rc, p, trimTo(st, 3000)))
+			sig := "C16/panic/" + hx.PanicSite(st)
+			if rc.Redelete && hx.PanicSite(st) == "client.(*Document).GetValue" && strings.Contains(st, "deleteIndexedDocWithID") {
+				// collection.Delete fetches the document to remove its index entries; for a document
+				// that is not visible the fetch yields nil and the index code dereferences it
+				sig = sigRedeletePanic
+			}
+			r.fail(hx.Failf(sig, "call %s panicked: %v\n%s", rc, p, trimTo(st, 3000)))
 		}
 		r.mu.Lock()
 		r.calls = append(r.calls, rc)
@@ -572,7 +630,7 @@ func (r *runner) call(g, i int, op Op) {
 			od.uncertain = true
 		}
 	case kUpdOwn, kIncOwn, kDelOwn, kDelOwnC, kReadOwn:
-		od := r.pickOwn(g, op.D)
+		od := r.pickOwn(g, op.D, r.c.NoRedelete && (k == kDelOwn || k == kDelOwnC))
 		if od == nil {
 			rc.Status = stNoTarget
 			break
@@ -632,8 +690,14 @@ func (r *runner) call(g, i int, op Op) {
 		if op.Wait {
 			r.merges.wait(func() bool { return r.merges.ended[key] >= r.merges.published[key] }, "merge "+rc.Note)
 		}
+	case kSinkDown:
+		if r.sinkDown.CompareAndSwap(false, true) {
+			// the replicator peer becomes unreachable: pushes fail from here on
+			r.sink.N.Peer.Close()
+			rc.Note = "closed"
+		}
 	case kSetRep, kDelRep:
-		info := r.sink.N.Peer.PeerInfo()
+		info := r.sinkInfo
 		var err error
 		if k == kSetRep {
 			err = r.tgt.N.Peer.SetReplicator(r.ctx, info, "Users")
@@ -683,10 +747,10 @@ func colSet(ctx context.Context, st store, docID, field string, val int) (int, s
 }
 
 // pickOwn selects one of the goroutine's documents whose creation was acknowledged.
-func (r *runner) pickOwn(g, d int) *ownDoc {
+func (r *runner) pickOwn(g, d int, notDeleted bool) *ownDoc {
 	var live []*ownDoc
 	for _, od := range r.own[g] {
-		if od.id != "" {
+		if od.id != "" && !(notDeleted && od.deleted) {
 			live = append(live, od)
 		}
 	}
@@ -733,6 +797,7 @@ func (r *runner) ownCall(rc *callRec, od *ownDoc, k string, op Op, issue func(fu
 		})
 		apply(func() { od.deleted = true })
 	case kDelOwnC:
+		rc.Redelete = od.deleted
 		rc.Status, rc.Err = issue(func(ctx context.Context, st store) (int, string) {
 			col, err := st.GetCollectionByName(ctx, "Users")
 			if err != nil {
@@ -793,14 +858,21 @@ func runOnce(c Case, rep int) (fails []*hx.Failure, labels []string, history str
 	r := &runner{c: c, rep: rep, merges: newMergeTracker(), labels: map[string]bool{}, own: make([][]*ownDoc, c.G)}
 	old := runtime.GOMAXPROCS(c.Procs[rep%len(c.Procs)])
 	defer runtime.GOMAXPROCS(old)
-	defer r.close()
+	t0 := time.Now()
+	defer func() {
+		tc := time.Now()
+		r.close()
+		timing("rep %d: close %v", rep, time.Since(tc).Round(time.Millisecond))
+	}()
 	r.setup()
+	timing("rep %d: setup %v", rep, time.Since(t0).Round(time.Millisecond))
+	t1 := time.Now()
 	curTick.Store(&r.tick)
 	curTracker.Store(r.merges)
 	defer curTracker.Store(nil)
 
 	// drains MergeComplete events (the bus blocks when a subscriber's buffer is full)
-	sub, err := r.tgt.DB.Events().Subscribe(event.MergeCompleteName)
+	sub, err := r.tgt.DB.Events().Subscribe(event.MergeCompleteName, event.ReplicatorCompletedName)
 	if err != nil {
 		hx.Harnessf("subscribe: %v", err)
 	}
@@ -810,6 +882,9 @@ func runOnce(c Case, rep int) (fails []*hx.Failure, labels []string, history str
 		for m := range sub.Message() {
 			if mc, ok := m.Data.(event.MergeComplete); ok {
 				r.merges.end(mergeKey(mc.Merge.DocID, mc.Merge.Cid.String()), "", r.tick.Add(1))
+			}
+			if m.Name == event.ReplicatorCompletedName {
+				r.repDone.Add(1)
 			}
 		}
 	}()
@@ -861,8 +936,14 @@ func runOnce(c Case, rep int) (fails []*hx.Failure, labels []string, history str
 	if he := harness.Load(); he != nil {
 		panic(*he)
 	}
+	timing("rep %d: calls %v", rep, time.Since(t1).Round(time.Millisecond))
+	t2 := time.Now()
 	r.merges.wait(r.merges.allEnded, "end of case")
+	r.waitReplicatorPushes()
+	timing("rep %d: quiesce %v", rep, time.Since(t2).Round(time.Millisecond))
+	t3 := time.Now()
 	r.evaluate()
+	timing("rep %d: evaluate %v", rep, time.Since(t3).Round(time.Millisecond))
 	r.tgt.DB.Events().Unsubscribe(sub)
 	<-subDone
 
